@@ -2,7 +2,7 @@
 """Regenerates /verif/MANIFEST.json from bin/props.py (keeps it valid at all times)."""
 import json, os, sys
 sys.path.insert(0, os.path.dirname(os.path.abspath(__file__)))
-from props import PROPS, NOT_APPLICABLE, MANIFEST_TEXT
+from props import PROPS, NOT_APPLICABLE, MANIFEST_TEXT, SIM_NOTE
 
 VERIF = os.path.dirname(os.path.dirname(os.path.abspath(__file__)))
 baseline = json.load(open("/root/.vp/BASELINE.json"))["cmd"]
@@ -11,7 +11,8 @@ checks = []
 for pid in ids:
     if pid not in PROPS:
         continue
-    t = MANIFEST_TEXT[pid]
+    t = MANIFEST_TEXT.get(pid) or {"technique": "deterministic simulation with fault injection (seeded plans, seeded scheduler, replayable)",
+                                  "level_text": "Seeded exploration by deterministic simulation; see DESIGN.md.", "level_note": SIM_NOTE}
     checks.append({
         "property_id": pid,
         "quick_cmd": "python3 bin/check %s --tier quick" % pid,
